@@ -5,6 +5,7 @@ package props
 import (
 	"bytes"
 	"encoding/base64"
+	"encoding/binary"
 	"encoding/json"
 	"fmt"
 	"io"
@@ -116,7 +117,124 @@ func c19Temporary(data []byte, at int64) (kind, msg string) {
 	return "", "ok"
 }
 
+// c19Fault: the source delivers the first k bytes and then fails for good with the given error. The
+// reference is the three specific loaders, each on a source of the same kind of its own.
+func c19Fault(data []byte, k int64, errKind string) (kind, msg string) {
+	mk := func() *src.Source { return src.New(data).FaultWith(k, c07Err(errKind)) }
+	var exp mdSummary
+	for _, l := range []string{"pngmeta", "jpegmeta", "webpmeta"} {
+		sum := summarise(loadWith(l, mk()))
+		if sum.Panic != "" {
+			return "", "a specific loader panicked (C09's business)"
+		}
+		if sum.OK {
+			exp = sum
+			break
+		}
+	}
+	s := mk()
+	res := loadWith("autometa", s)
+	if res.Panic != nil {
+		return "panic", fmt.Sprintf("autometa.Load panicked: %v", res.Panic)
+	}
+	got := summarise(res)
+	if exp.OK {
+		if !got.same(exp) {
+			return "differs", fmt.Sprintf("the source fails with %s after %d bytes: autometa.Load gives %s; the first specific loader that succeeds on such a source gives %s", errKind, k, sumStr(got), sumStr(exp))
+		}
+	} else if res.Err == nil || res.MD != nil {
+		return "should-fail", fmt.Sprintf("the source fails with %s after %d bytes and no specific loader succeeds on such a source, but autometa.Load returned md=%v err=%v", errKind, k, res.MD != nil, res.Err)
+	}
+	if res.Stream == nil {
+		return "nil-stream", "autometa.Load returned a nil stream"
+	}
+	out, rerr, _ := src.ReadAllChunks(res.Stream, 4096, int64(len(data))+1<<16)
+	end := k
+	if end > int64(len(data)) {
+		end = int64(len(data))
+	}
+	if !bytes.Equal(out, data[:end]) {
+		return "stream", fmt.Sprintf("the source fails with %s after %d bytes: autometa.Load's stream gives %d bytes that %s", errKind, k, len(out), firstDiff(out, data[:end]))
+	}
+	if end < int64(len(data)) && rerr == nil {
+		return "stream", fmt.Sprintf("the source fails with %s after %d bytes: autometa.Load's stream ends cleanly instead of surfacing the error", errKind, k)
+	}
+	return "", "ok"
+}
+
+// c19FaultAt picks where the source fails: at a PNG chunk boundary when the input is a PNG (a
+// loader that takes end-of-data between chunks for the end of the file must not take a failure
+// for it), anywhere otherwise.
+func c19FaultAt(data []byte, seed uint64) int64 {
+	if len(data) == 0 {
+		return 0
+	}
+	if len(data) > 33 && bytes.HasPrefix(data, imggen.PNGSig) {
+		var bounds []int64
+		for o := int64(8); o+12 <= int64(len(data)); {
+			l := int64(binary.BigEndian.Uint32(data[o:]))
+			o += 12 + l
+			if o <= int64(len(data)) {
+				bounds = append(bounds, o)
+			}
+		}
+		if len(bounds) > 0 && seed%3 != 0 {
+			return bounds[int(seed>>8)%len(bounds)]
+		}
+	}
+	return int64(seed % uint64(len(data)))
+}
+
+// c19Named: the input is an *os.File whose name ends in an extension that says nothing about (or
+// contradicts) its content.
+func c19Named(data []byte, ext string) (kind, msg string) {
+	exp, _ := c19Expected(data)
+	if exp.Panic != "" || exp.sourceDependent != "" {
+		return "", "n/a"
+	}
+	f, err := os.CreateTemp(core.WorkDir("C19"), "img*"+ext)
+	if err != nil {
+		return "", "n/a"
+	}
+	defer os.Remove(f.Name())
+	defer f.Close()
+	_, _ = f.Write(data)
+	_, _ = f.Seek(0, io.SeekStart)
+	res := loadWith("autometa", f)
+	if res.Panic != nil {
+		return "panic", fmt.Sprintf("autometa.Load panicked: %v", res.Panic)
+	}
+	got := summarise(res)
+	if exp.OK && !got.same(exp) {
+		return "differs", fmt.Sprintf("read from a file named *%s: autometa.Load gives %s; the first specific loader that succeeds gives %s", ext, sumStr(got), sumStr(exp))
+	}
+	if !exp.OK && (res.Err == nil || res.MD != nil) {
+		return "should-fail", fmt.Sprintf("read from a file named *%s: no specific loader succeeds, but autometa.Load returned md=%v err=%v", ext, res.MD != nil, res.Err)
+	}
+	if res.Stream == nil {
+		return "nil-stream", "autometa.Load returned a nil stream"
+	}
+	out, rerr, _ := src.ReadAllChunks(res.Stream, 4096, int64(len(data))+1<<16)
+	if rerr != nil || !bytes.Equal(out, data) {
+		return "stream", fmt.Sprintf("read from a file named *%s: autometa.Load's stream gives %d bytes that %s, err %v", ext, len(out), firstDiff(out, data), rerr)
+	}
+	return "", "ok"
+}
+
 func c19Check(data []byte, schedule string, seed uint64, deferred bool) (kind, msg string, nt bool) {
+	if strings.HasPrefix(schedule, "fault:") {
+		// fault:<error kind>@<k>
+		rest := schedule[len("fault:"):]
+		i := strings.LastIndex(rest, "@")
+		var k int64
+		fmt.Sscanf(rest[i+1:], "%d", &k)
+		kind, msg = c19Fault(data, k, rest[:i])
+		return kind, msg, false
+	}
+	if strings.HasPrefix(schedule, "named:") {
+		kind, msg = c19Named(data, schedule[len("named:"):])
+		return kind, msg, false
+	}
 	if strings.HasPrefix(schedule, "temporary@") {
 		var at int64
 		fmt.Sscanf(schedule, "temporary@%d", &at)
@@ -489,7 +607,12 @@ func runC19(r *core.Run) {
 				tempAt = 4096 + int64(seeds[i]%100)
 			}
 		}
-		for si, sc := range []string{"all", "1", "random17", fmt.Sprintf("seeker@%d", 1+i%23), "data+eof", "4096+data+eof", "pipe", "zero-nil", fmt.Sprintf("kind:%d", 1+i%7), fmt.Sprintf("temporary@%d", tempAt)} {
+		for si, sc := range []string{"all", "1", "random17", fmt.Sprintf("seeker@%d", 1+i%23), "data+eof", "4096+data+eof", "pipe", "zero-nil", fmt.Sprintf("kind:%d", 1+i%7), fmt.Sprintf("temporary@%d", tempAt),
+			fmt.Sprintf("fault:%s@%d", []string{"io.ErrUnexpectedEOF", "wrapped io.EOF", "io.ErrClosedPipe", "wrapped io.ErrUnexpectedEOF"}[i%4], c19FaultAt(x.bytes, seeds[i])),
+			"named:" + []string{".jpg", ".png", ".webp", ".jpeg", ".JPG", ".gif", ".tmp"}[i%7]} {
+			if strings.HasPrefix(sc, "named:") && i%5 != 0 {
+				continue
+			}
 			if sc == "pipe" && i%4 != 0 {
 				continue
 			}
